@@ -57,7 +57,11 @@ def r2(chk, ctx):
     chk.ob("C06.R2", "branch_id registered with a task is the ID of its innermost fan-out", ok, str(bd), key="%s | branch_id definitions %s" % (ext.qname, bd), where=ext.where(), message="")
     bh = td.func("TaskDispatcher.branch_has_terminated")
     txt = [norm(s) for s in ast.walk(bh.node) if isinstance(s, ast.stmt)]
-    ok = "branch_results = all_branch_results[branch_id]" in txt and any(t.startswith("if branch_results.get('terminated')") for t in txt) and "return False" in txt
+    # the group's entry is looked up by the request's own branch id (hard or tolerant lookup: C06.R10 decides which is required), a truthy
+    # 'terminated' mark of THAT entry answers True, everything else False
+    look = [x for x in name_defs(bh, "branch_results") if isinstance(x, ast.Assign) and norm(x.value) in ("all_branch_results[branch_id]", "all_branch_results.get(branch_id)")]
+    marks = [i for i in body_nodes(bh) if isinstance(i, ast.If) and "branch_results.get('terminated')" in norm(i.test) and any(isinstance(r, ast.Return) and const(r.value) is True for r in i.body)]
+    ok = len(look) == 1 and len(marks) == 1 and isinstance(bh.node.body[-1], ast.Return) and const(bh.node.body[-1].value) is False
     chk.ob("C06.R2", "TaskDispatcher.branch_has_terminated reads the 'terminated' mark of that fan-out", ok, "", key="%s | shape" % bh.qname, where=bh.where(), message="")
     c09.r5(chk, ctx)
 
@@ -197,4 +201,6 @@ def run(chk, ctx):
     round4.gate_walks_whole_stack(chk, ctx)
     round4.gate_index_default(chk, ctx)
     round4.teardown_scoped_to_terminated_groups(chk, ctx)
+    from . import round5
+    round5.gates_tolerate_tidied_group(chk, ctx)
     chk.assume("given the decided clauses, whether a late sibling can still disturb the outcome depends on delivery order (not decided)")
